@@ -1,6 +1,7 @@
 import RumaModel.Driver.HtmlCodec
 import RumaModel.Spec.HtmlDoc
 import RumaModel.Lemmas.HtmlTables15
+import RumaModel.Lemmas.HtmlSorted
 namespace Ruma.Driver.C15
 open Ruma Ruma.Proto Ruma.Html Ruma.Driver.Html Ruma.Spec.HtmlDoc
 
@@ -17,7 +18,9 @@ def parseCfgForest (rest : List String) : Option (Cfg × List Node) :=
   match parseVal rest with
   | some (cfgv, _html :: rest') =>
     match parseCfg cfgv, parseForest rest' with
-    | some cfg, some (f, []) => some (cfg, f)
+    | some cfg, some (f, []) =>
+      -- attribute lists must arrive in the model's order of `Attribute` (= Rust's derived `Ord`)
+      if Lemmas.Html.sortedForestB f then some (cfg, f) else none
     | _, _ => none
   | _ => none
 
